@@ -112,3 +112,15 @@ package driver
 //@ func [C11] numInput(q) (result)
 //@   requires q != nil && ptOK(q.Expr)
 //@   ensures [C11] covers_every_placeholder: result >= 0 && (forall x *updogv1.Query_Expression_Equal :: leafOf(x, q.Expr) ==> x.Placeholder <= result)
+
+// a prepared statement on a file connection: binding never touches the parsed query (no modifies clause covers it:
+// frame obligations), too few arguments are an error before anything is evaluated
+//@ func [C11,C12] (*fileStmt).query(stmt, values) (r, err)
+//@   requires stmt != nil && stmt.q != nil && ptOK(stmt.q.Expr) && stmt.c != nil && IdxInv(stmt.c.idx) && stmt.c.idx.mtx.held == 0
+//@   modifies heap list.List.stamp; heap list.List.clock; heap list.List.members; heap updog.CounterMetric.count; heap updog.LRUCache.curSize
+//@   modifies heap map[uint64]*list.Element; heap dom[uint64]*list.Element; heap updog.lruCacheItem.bm; heap updog.lruCacheItem.size; heap updog.HistogramMetric.obs
+//@   modifies heap sync.Mutex.held
+//@   ensures [C11] too_few_arguments_is_an_error: (exists x *updogv1.Query_Expression_Equal :: leafOf(x, stmt.q.Expr) && x.Placeholder > len(values)) ==> err != nil
+//@   ensures [C12] err != nil ==> r == nil
+//@   ensures [C12] err == nil ==> r != nil
+//@   ensures [C11,C12] statement_is_reusable: stmt.q == old(stmt.q) && ptOK(stmt.q.Expr) && IdxInv(stmt.c.idx) && stmt.c.idx.mtx.held == 0
